@@ -422,6 +422,7 @@ func (s *Stream) skipValue(depth int64) error {
 				}
 			}
 		case '-', '0', '1', '2', '3', '4', '5', '6', '7', '8', '9':
+			start := cursor
 			for {
 				cursor++
 				c := char(p, cursor)
@@ -435,6 +436,9 @@ func (s *Stream) skipValue(depth int64) error {
 					}
 				}
 				s.cursor = cursor
+				if num := s.buf[start:cursor]; !validNumber(num) {
+					return errInvalidNumber(num, s.totalOffset())
+				}
 				return nil
 			}
 		case 't':
